@@ -1,9 +1,11 @@
 import ZapVerif.Model.Level
+import ZapVerif.Proofs.TransLevel
 /-! # C20 — Level names and the level HTTP endpoint set exactly the requested level
 
 Stated over the regenerated tables `Gen.levelText` (all 256 values, dumped from the running code) and
 `Gen.levelNames` (the `unmarshalText` switch read from the source), so `lake build` re-proves them against
 today's code. -/
+set_option linter.unusedSimpArgs false
 namespace ZapVerif.C20
 open ZapVerif ZapVerif.Level
 
@@ -133,5 +135,484 @@ example : serve 0 ⟨"PUT", .form [100, 101, 98, 117, 103] [100, 101, 98, 117, 1
   decide +kernel
 example : serve 2 ⟨"PUT", .json [.text [68, 69, 66, 85, 71] [100, 101, 98, 117, 103], .null]⟩ = (400, 2, none) := by
   decide +kernel
+
+end ZapVerif.C20
+
+/-! # `zapcore/level.go` and `http_handler.go` ARE the source (translator round 4, table `Gen.TransLevel`)
+
+`(*Level).unmarshalText`, `UnmarshalText`, `ParseLevel`, `Level.String`, `CapitalString` (`LevelOf`: Props/C05) and
+`AtomicLevel.serveHTTP`, `decodePutRequest`, `decodePutURL`, `decodePutJSON`, translated mechanically, are interpreted
+with `bytes.ToLower`, `fmt.Sprintf`, the `leveledEnabler` assertion, `Enabled`, `FormValue`, `Header.Get`, the JSON
+decoder's outcome and `error.Error` as parameters, `WriteHeader` / `Encode` as recorded calls.  The model functions the
+theorems above are stated over are what the translated terms compute: `namesSpec_is_unmarshal1` (the switch is
+`Level.unmarshal1`), `UnmarshalText_matches_source` (= `Level.unmarshalInto`, the function of `reject_unchanged` /
+`parse_iff`), `stringSpec_is_stringOf`, `serveHTTP_is_serve` (= `Level.serve`, the function of `http_status`,
+`http_changes_iff`, `http_reports_in_force`). -/
+namespace ZapVerif.C20
+open ZapVerif ZapVerif.Level ZapVerif.GoMini ZapVerif.TransLevel ZapVerif.Gen.TransLevel
+
+/-- the switch of `(*Level).unmarshalText`, written out: which texts are names, and of which level -/
+def namesSpec (t : Bytes) : Option Int :=
+  if t = [100, 101, 98, 117, 103] then some (-1)
+  else if t = [105, 110, 102, 111] ∨ t = [] then some 0
+  else if t = [119, 97, 114, 110] ∨ t = [119, 97, 114, 110, 105, 110, 103] then some 1
+  else if t = [101, 114, 114, 111, 114] then some 2
+  else if t = [100, 112, 97, 110, 105, 99] then some 3
+  else if t = [112, 97, 110, 105, 99] then some 4
+  else if t = [102, 97, 116, 97, 108] then some 5
+  else none
+
+theorem unmarshalText_exec_matches_source (P : Par) (t : Bytes) (cur : Int) (fl0 : Env) (fuel : Nat) :
+    (exec (X P) (fuel + 1) unmarshalText_body ⟨[("p0", .bytes t)], ("lvl", .int cur) :: fl0⟩).fin =
+      some ([.bool (namesSpec t).isSome], ("lvl", .int ((namesSpec t).getD cur)) :: fl0) := by
+  rw [exec_succ]
+  unfold namesSpec
+  by_cases h1 : t = [100, 101, 98, 117, 103]
+  · subst h1; simp [unmarshalText_body]
+  by_cases h2 : t = [105, 110, 102, 111]
+  · subst h2; simp [unmarshalText_body]
+  by_cases h3 : t = []
+  · subst h3; simp [unmarshalText_body]
+  by_cases h4 : t = [119, 97, 114, 110]
+  · subst h4; simp [unmarshalText_body]
+  by_cases h5 : t = [119, 97, 114, 110, 105, 110, 103]
+  · subst h5; simp [unmarshalText_body]
+  by_cases h6 : t = [101, 114, 114, 111, 114]
+  · subst h6; simp [unmarshalText_body]
+  by_cases h7 : t = [100, 112, 97, 110, 105, 99]
+  · subst h7; simp [unmarshalText_body]
+  by_cases h8 : t = [112, 97, 110, 105, 99]
+  · subst h8; simp [unmarshalText_body]
+  by_cases h9 : t = [102, 97, 116, 97, 108]
+  · subst h9; simp [unmarshalText_body]
+  simp [unmarshalText_body, h1, h2, h3, h4, h5, h6, h7, h8, h9]
+
+theorem unmarshalText_matches_source (P : Par) (t : Bytes) (cur : Int) (fl0 : Env) (fuel : Nat) :
+    run (X P) (fuel + 1) "unmarshalText" [.bytes t] (("lvl", .int cur) :: fl0) =
+      .done [.bool (namesSpec t).isSome] (("lvl", .int ((namesSpec t).getD cur)) :: fl0) :=
+  run_of_fin (X P) _ _ Gen.TransLevel.unmarshalText [.bytes t] _ _ _ rfl rfl (unmarshalText_exec_matches_source P t cur fl0 fuel)
+
+/-- the names the switch knows -/
+def nameKeys : List Bytes := [[100, 101, 98, 117, 103], [105, 110, 102, 111], [], [119, 97, 114, 110], [119, 97, 114, 110, 105, 110, 103],
+  [101, 114, 114, 111, 114], [100, 112, 97, 110, 105, 99], [112, 97, 110, 105, 99], [102, 97, 116, 97, 108]]
+
+/-- the switch read by the translator is the table `Gen.levelNames` read by the fact extractor: the model function
+    `Level.unmarshal1` the C20 theorems are stated over IS the translated `unmarshalText` -/
+theorem namesSpec_is_unmarshal1 (t : Bytes) : namesSpec t = unmarshal1 t := by
+  by_cases hk : t ∈ nameKeys
+  · have h : ∀ k ∈ nameKeys, namesSpec k = unmarshal1 k := by decide +kernel
+    exact h t hk
+  · have hn : namesSpec t = none := by
+      simp only [nameKeys, List.mem_cons, List.not_mem_nil, or_false, not_or] at hk
+      simp [namesSpec, hk]
+    have hkeys : ∀ p ∈ Gen.levelNames, p.1 ∈ nameKeys := by decide +kernel
+    have hu : unmarshal1 t = none := by
+      unfold unmarshal1
+      rw [List.lookup_eq_none_iff]
+      intro p hp
+      have := hkeys p hp
+      simp only [bne_iff_ne, ne_eq]
+      intro heq
+      exact hk (heq ▸ this)
+    rw [hn, hu]
+
+/-- `(*Level).UnmarshalText` on a non-nil receiver: the exact text first, then its `bytes.ToLower` image; the target is
+    written only by a successful attempt; the error names the text -/
+def unmarshalErrL (t : Bytes) : List Val :=
+  [.list [nm "fmt.Errorf", .bytes [117, 110, 114, 101, 99, 111, 103, 110, 105, 122, 101, 100, 32, 108, 101, 118, 101, 108, 58, 32, 37, 113], .bytes t]]
+def unmarshalErr (t : Bytes) : Val := .list (unmarshalErrL t)
+
+theorem UnmarshalText_exec_matches_source (P : Par) (t : Bytes) (cur : Int) (fl0 : Env) (fuel : Nat) :
+    (exec (X P) (fuel + 2) UnmarshalText_body ⟨[("p0", .bytes t)], ("lvl", .int cur) :: ("isnil", .bool false) :: fl0⟩).fin =
+      some ([if (unmarshalInto P.lower cur t).1 then .list [] else unmarshalErr t],
+        ("lvl", .int (unmarshalInto P.lower cur t).2) :: ("isnil", .bool false) :: fl0) := by
+  have hcall : ∀ (σ : State) (l : LV) (u : Bytes) (c : Int), retK σ [l] "unmarshalText"
+      (exec (X P) (fuel + 1) unmarshalText_body ⟨[("p0", .bytes u)], ("lvl", .int c) :: ("isnil", .bool false) :: fl0⟩) = _ :=
+    fun σ l u c => retK_of_fin1 σ _ _ _ _ _ (unmarshalText_exec_matches_source P u c _ fuel)
+  rw [exec_succ]
+  simp only [unmarshalInto, parse, ← namesSpec_is_unmarshal1]
+  cases h1 : namesSpec t with
+  | some l => simp [UnmarshalText_body, hcall, h1]
+  | none =>
+    cases h2 : namesSpec (P.lower t) with
+    | some l => simp [UnmarshalText_body, hcall, h1, h2]
+    | none => simp [UnmarshalText_body, hcall, h1, h2, unmarshalErr, unmarshalErrL, errV]
+
+theorem UnmarshalText_matches_source (P : Par) (t : Bytes) (cur : Int) (fl0 : Env) (fuel : Nat) :
+    run (X P) (fuel + 2) "UnmarshalText" [.bytes t] (("lvl", .int cur) :: ("isnil", .bool false) :: fl0) =
+      .done [if (unmarshalInto P.lower cur t).1 then .list [] else unmarshalErr t]
+        (("lvl", .int (unmarshalInto P.lower cur t).2) :: ("isnil", .bool false) :: fl0) :=
+  run_of_fin (X P) _ _ Gen.TransLevel.UnmarshalText [.bytes t] _ _ _ rfl rfl (UnmarshalText_exec_matches_source P t cur fl0 fuel)
+
+/-- a nil receiver: the sentinel error, nothing touched -/
+theorem UnmarshalText_nil_matches_source (P : Par) (t : Bytes) (cur : Val) (fl0 : Env) (fuel : Nat) :
+    run (X P) (fuel + 1) "UnmarshalText" [.bytes t] (("lvl", cur) :: ("isnil", .bool true) :: fl0) =
+      .done [.list [.int 0]] (("lvl", cur) :: ("isnil", .bool true) :: fl0) := by
+  apply run_of_fin (X P) _ _ Gen.TransLevel.UnmarshalText [.bytes t] _ _ _ rfl rfl
+  rw [exec_succ]
+  simp [UnmarshalText_body]
+
+/-- `ParseLevel`: a fresh zero Level, `UnmarshalText` into it; level and error returned (the level is 0 on rejection) -/
+theorem ParseLevel_exec_matches_source (P : Par) (t : Bytes) (a b : Val) (fl0 : Env) (fuel : Nat) :
+    (exec (X P) (fuel + 3) ParseLevel_body ⟨[("p0", .bytes t)], ("lvl", a) :: ("isnil", b) :: fl0⟩).fin =
+      some ([.int (unmarshalInto P.lower 0 t).2, if (unmarshalInto P.lower 0 t).1 then .list [] else unmarshalErr t],
+        ("lvl", .int (unmarshalInto P.lower 0 t).2) :: ("isnil", .bool false) :: fl0) := by
+  have hcall : ∀ (σ : State) (l : LV), retK σ [l] "UnmarshalText"
+      (exec (X P) (fuel + 2) UnmarshalText_body ⟨[("p0", .bytes t)], ("lvl", .int 0) :: ("isnil", .bool false) :: fl0⟩) = _ :=
+    fun σ l => retK_of_fin1 σ _ _ _ _ _ (UnmarshalText_exec_matches_source P t 0 _ fuel)
+  rw [exec_succ]
+  simp [ParseLevel_body, hcall]
+
+theorem ParseLevel_matches_source (P : Par) (t : Bytes) (a b : Val) (fl0 : Env) (fuel : Nat) :
+    run (X P) (fuel + 3) "ParseLevel" [.bytes t] (("lvl", a) :: ("isnil", b) :: fl0) =
+      .done [.int (unmarshalInto P.lower 0 t).2, if (unmarshalInto P.lower 0 t).1 then .list [] else unmarshalErr t]
+        (("lvl", .int (unmarshalInto P.lower 0 t).2) :: ("isnil", .bool false) :: fl0) :=
+  run_of_fin (X P) _ _ Gen.TransLevel.ParseLevel [.bytes t] _ _ _ rfl rfl (ParseLevel_exec_matches_source P t a b fl0 fuel)
+
+
+/-- `Level.String` / `CapitalString`: the seven names, anything else through `fmt.Sprintf` -/
+def stringSpec (P : Par) (l : Int) : Bytes :=
+  if l = -1 then [100, 101, 98, 117, 103] else if l = 0 then [105, 110, 102, 111] else if l = 1 then [119, 97, 114, 110]
+  else if l = 2 then [101, 114, 114, 111, 114] else if l = 3 then [100, 112, 97, 110, 105, 99]
+  else if l = 4 then [112, 97, 110, 105, 99] else if l = 5 then [102, 97, 116, 97, 108]
+  else P.sprintf [76, 101, 118, 101, 108, 40, 37, 100, 41] l
+
+def capitalSpec (P : Par) (l : Int) : Bytes :=
+  if l = -1 then [68, 69, 66, 85, 71] else if l = 0 then [73, 78, 70, 79] else if l = 1 then [87, 65, 82, 78]
+  else if l = 2 then [69, 82, 82, 79, 82] else if l = 3 then [68, 80, 65, 78, 73, 67]
+  else if l = 4 then [80, 65, 78, 73, 67] else if l = 5 then [70, 65, 84, 65, 76]
+  else P.sprintf [76, 69, 86, 69, 76, 40, 37, 100, 41] l
+
+theorem String_matches_source (P : Par) (l : Int) (fl0 : Env) (fuel : Nat) :
+    run (X P) (fuel + 1) "LevelString" [] (("lvl", .int l) :: fl0) = .done [.bytes (stringSpec P l)] (("lvl", .int l) :: fl0) := by
+  apply run_of_fin (X P) _ _ Gen.TransLevel.LevelString [] _ _ _ rfl rfl
+  rw [exec_succ]
+  unfold stringSpec
+  by_cases h1 : l = -1
+  · subst h1; simp [LevelString_body]
+  by_cases h2 : l = 0
+  · subst h2; simp [LevelString_body]
+  by_cases h3 : l = 1
+  · subst h3; simp [LevelString_body]
+  by_cases h4 : l = 2
+  · subst h4; simp [LevelString_body]
+  by_cases h5 : l = 3
+  · subst h5; simp [LevelString_body]
+  by_cases h6 : l = 4
+  · subst h6; simp [LevelString_body]
+  by_cases h7 : l = 5
+  · subst h7; simp [LevelString_body]
+  simp [LevelString_body, h1, h2, h3, h4, h5, h6, h7]
+
+theorem CapitalString_matches_source (P : Par) (l : Int) (fl0 : Env) (fuel : Nat) :
+    run (X P) (fuel + 1) "LevelCapitalString" [] (("lvl", .int l) :: fl0) = .done [.bytes (capitalSpec P l)] (("lvl", .int l) :: fl0) := by
+  apply run_of_fin (X P) _ _ Gen.TransLevel.LevelCapitalString [] _ _ _ rfl rfl
+  rw [exec_succ]
+  unfold capitalSpec
+  by_cases h1 : l = -1
+  · subst h1; simp [LevelCapitalString_body]
+  by_cases h2 : l = 0
+  · subst h2; simp [LevelCapitalString_body]
+  by_cases h3 : l = 1
+  · subst h3; simp [LevelCapitalString_body]
+  by_cases h4 : l = 2
+  · subst h4; simp [LevelCapitalString_body]
+  by_cases h5 : l = 3
+  · subst h5; simp [LevelCapitalString_body]
+  by_cases h6 : l = 4
+  · subst h6; simp [LevelCapitalString_body]
+  by_cases h7 : l = 5
+  · subst h7; simp [LevelCapitalString_body]
+  simp [LevelCapitalString_body, h1, h2, h3, h4, h5, h6, h7]
+
+/-- on the valid levels the translated switches ARE the rows of the dumped table `Gen.levelText` the round-trip
+    theorems are stated over (whatever `fmt.Sprintf` is) -/
+theorem stringSpec_is_stringOf (P : Par) : ∀ l ∈ validLevels, stringSpec P l = stringOf l ∧ capitalSpec P l = capitalOf l := by
+  intro l hl
+  simp only [validLevels, List.mem_cons, List.not_mem_nil, or_false] at hl
+  rcases hl with h | h | h | h | h | h | h <;> subst h <;> constructor <;> simp [stringSpec, capitalSpec] <;> decide +kernel
+
+
+/-! ### http_handler.go -/
+
+def mustSpecify : List Val :=
+  [.list [nm "errors.New", .bytes [109, 117, 115, 116, 32, 115, 112, 101, 99, 105, 102, 121, 32, 108, 111, 103, 103, 105, 110, 103, 32, 108, 101, 118, 101, 108]]]
+def malformedErr (e : List Val) : List Val :=
+  [.list [nm "fmt.Errorf", .bytes [109, 97, 108, 102, 111, 114, 109, 101, 100, 32, 114, 101, 113, 117, 101, 115, 116, 32, 98, 111, 100, 121, 58, 32, 37, 118], .list e]]
+def levelKey : Bytes := [108, 101, 118, 101, 108]
+def formCT : Bytes := [97, 112, 112, 108, 105, 99, 97, 116, 105, 111, 110, 47, 120, 45, 119, 119, 119, 45, 102, 111, 114, 109, 45, 117, 114, 108, 101, 110, 99, 111, 100, 101, 100]
+
+/-- `decodePutURL`: the form value `level`; empty ⇒ "must specify"; else `UnmarshalText` into a zero Level -/
+def putURLSpec (P : Par) (r : Val) : Int × List Val :=
+  if P.formValue r levelKey = [] then (0, mustSpecify)
+  else if (unmarshalInto P.lower 0 (P.formValue r levelKey)).1 then ((unmarshalInto P.lower 0 (P.formValue r levelKey)).2, [])
+  else (0, unmarshalErrL (P.formValue r levelKey))
+
+theorem decodePutURL_exec_matches_source (P : Par) (r a b : Val) (fl0 : Env) (fuel : Nat) :
+    ∃ a' b', (exec (X P) (fuel + 3) decodePutURL_body ⟨[("p0", r)], ("lvl", a) :: ("isnil", b) :: fl0⟩).fin =
+      some ([.int (putURLSpec P r).1, .list (putURLSpec P r).2], ("lvl", a') :: ("isnil", b') :: fl0) := by
+  have hcall : ∀ (σ : State) (l : LV) (t : Bytes), retK σ [l] "UnmarshalText"
+      (exec (X P) (fuel + 2) UnmarshalText_body ⟨[("p0", .bytes t)], ("lvl", .int 0) :: ("isnil", .bool false) :: fl0⟩) = _ :=
+    fun σ l t => retK_of_fin1 σ _ _ _ _ _ (UnmarshalText_exec_matches_source P t 0 _ fuel)
+  rw [exec_succ]
+  unfold putURLSpec
+  by_cases h0 : P.formValue r levelKey = []
+  · exact ⟨a, b, by simp [decodePutURL_body, levelKey, mustSpecify, errV] at h0 ⊢; simp [h0]⟩
+  · have h0' : (P.formValue r [108, 101, 118, 101, 108] == []) = false := by simpa [levelKey] using h0
+    cases hu : (unmarshalInto P.lower 0 (P.formValue r levelKey)).1
+    · exact ⟨.int (unmarshalInto P.lower 0 (P.formValue r levelKey)).2, .bool false, by simp [levelKey] at hu h0 ⊢; simp [decodePutURL_body, h0, h0', hcall, hu, unmarshalErr, unmarshalErrL, errV]⟩
+    · exact ⟨.int (unmarshalInto P.lower 0 (P.formValue r levelKey)).2, .bool false, by simp [levelKey] at hu h0 ⊢; simp [decodePutURL_body, h0, h0', hcall, hu]⟩
+
+/-- `decodePutJSON`: decoder error ⇒ "malformed request body"; no `level` member (nil pointer) ⇒ "must specify";
+    else the level the decoder left -/
+def putJSONSpec (P : Par) (body : Val) : Int × List Val :=
+  if (P.jsonDecode body).2 ≠ [] then (0, malformedErr (P.jsonDecode body).2)
+  else match (P.jsonDecode body).1 with
+    | [.int l] => (l, [])
+    | _ => (0, mustSpecify)
+
+theorem decodePutJSON_exec_matches_source (P : Par) (body : Val) (fl : Env) (fuel : Nat)
+    (hd : (P.jsonDecode body).1 = [] ∨ ∃ l, (P.jsonDecode body).1 = [.int l]) :
+    (exec (X P) (fuel + 1) decodePutJSON_body ⟨[("p0", body)], fl⟩).fin =
+      some ([.int (putJSONSpec P body).1, .list (putJSONSpec P body).2], fl) := by
+  rw [exec_succ]
+  unfold putJSONSpec
+  cases he : (P.jsonDecode body).2 with
+  | cons x xs =>
+    have hp : ¬ ((xs.length : Int) + 1 = 0) := by omega
+    simp [decodePutJSON_body, he, hp, malformedErr, errV]
+  | nil =>
+    rcases hd with h | ⟨l, h⟩
+    · simp [decodePutJSON_body, he, h, mustSpecify, errV]
+    · simp [decodePutJSON_body, he, h]
+
+/-- `decodePutRequest`: the form decoder exactly for the url-encoded content type, the JSON decoder for anything else -/
+def putSpec (P : Par) (ct : Bytes) (r body : Val) : Int × List Val :=
+  if ct = formCT then putURLSpec P r else putJSONSpec P body
+
+theorem decodePutRequest_exec_matches_source (P : Par) (ct method : Bytes) (header body rest a b : Val) (fl0 : Env) (fuel : Nat)
+    (hd : (P.jsonDecode body).1 = [] ∨ ∃ l, (P.jsonDecode body).1 = [.int l]) :
+    ∃ a' b', (exec (X P) (fuel + 4) decodePutRequest_body
+        ⟨[("p0", .bytes ct), ("p1", reqV method header body rest)], ("lvl", a) :: ("isnil", b) :: fl0⟩).fin =
+      some ([.int (putSpec P ct (reqV method header body rest) body).1, .list (putSpec P ct (reqV method header body rest) body).2],
+        ("lvl", a') :: ("isnil", b') :: fl0) := by
+  obtain ⟨a', b', hu⟩ := decodePutURL_exec_matches_source P (reqV method header body rest) a b fl0 fuel
+  have hurl : ∀ σ : State, retK σ [.loc "l0", .loc "l1"] "decodePutURL"
+      (exec (X P) (fuel + 3) decodePutURL_body ⟨[("p0", reqV method header body rest)], ("lvl", a) :: ("isnil", b) :: fl0⟩) = _ :=
+    fun σ => retK_of_fin2 σ _ _ _ _ _ _ _ hu
+  have hjson : ∀ σ : State, retK σ [.loc "l2", .loc "l3"] "decodePutJSON"
+      (exec (X P) (fuel + 2 + 1) decodePutJSON_body ⟨[("p0", body)], ("lvl", a) :: ("isnil", b) :: fl0⟩) = _ :=
+    fun σ => retK_of_fin2 σ _ _ _ _ _ _ _ (decodePutJSON_exec_matches_source P body _ (fuel + 2) hd)
+  rw [exec_succ]
+  unfold putSpec
+  by_cases hc : ct = formCT
+  · subst hc
+    exact ⟨a', b', by simp [decodePutRequest_body, formCT, hurl]⟩
+  · have hc' : (ct == formCT) = false := by simpa using hc
+    refine ⟨a, b, ?_⟩
+    simp only [formCT] at hc hc'
+    simp [decodePutRequest_body, formCT, hc, hc', reqV, hjson]
+
+
+def ctKey : Bytes := [67, 111, 110, 116, 101, 110, 116, 45, 84, 121, 112, 101]
+def onlyGetPut : Bytes := [79, 110, 108, 121, 32, 71, 69, 84, 32, 97, 110, 100, 32, 80, 85, 84, 32, 97, 114, 101, 32, 115, 117, 112, 112, 111, 114, 116, 101, 100, 46]
+def encV (w : Val) : Val := .list [nm "json.NewEncoder", w]
+def encodeRec (w v : Val) : Val := .list [nm "json.Encode", encV w, .list [v]]
+def headerRec (w : Val) (code : Int) : Val := .list [nm "ResponseWriter.WriteHeader", w, .int code]
+
+/-- `AtomicLevel.serveHTTP`: (the calls on the response in order, the level afterwards, the error returned).
+    GET: the current level is encoded.  PUT: the request is decoded; on error `WriteHeader(400)` and the error text, the
+    level untouched; otherwise `SetLevel` and the NEW level is encoded.  Anything else: `WriteHeader(405)`. -/
+def serveSpec (P : Par) (w : Val) (method : Bytes) (header body rest : Val) (cur : Int) : List Val × Int × List Val :=
+  if method = [71, 69, 84] then ([encodeRec w (.int cur)], cur, P.encodeErr (encV w) (.list [.int cur]))
+  else if method = [80, 85, 84] then
+    let d := putSpec P (P.headerGet header ctKey) (reqV method header body rest) body
+    if d.2.isEmpty then ([encodeRec w (.int d.1)], d.1, P.encodeErr (encV w) (.list [.int d.1]))
+    else ([headerRec w 400, encodeRec w (.bytes (P.errText (.list d.2)))], cur, P.encodeErr (encV w) (.list [.bytes (P.errText (.list d.2))]))
+  else ([headerRec w 405, encodeRec w (.bytes onlyGetPut)], cur, P.encodeErr (encV w) (.list [.bytes onlyGetPut]))
+
+theorem serveHTTP_matches_source (P : Par) (w : Val) (method : Bytes) (header body rest a b : Val) (cur : Int) (ev : List Val)
+    (fuel : Nat) (hd : (P.jsonDecode body).1 = [] ∨ ∃ l, (P.jsonDecode body).1 = [.int l]) :
+    ∃ a' b', run (X P) (fuel + 5) "serveHTTP" [w, reqV method header body rest]
+        [("lvl", a), ("isnil", b), ("level", .int cur), ("ev", .list ev)] =
+      .done [.list (serveSpec P w method header body rest cur).2.2]
+        [("lvl", a'), ("isnil", b'), ("level", .int (serveSpec P w method header body rest cur).2.1),
+         ("ev", .list (ev ++ (serveSpec P w method header body rest cur).1))] := by
+  obtain ⟨a', b', hp⟩ := decodePutRequest_exec_matches_source P (P.headerGet header ctKey) method header body rest a b
+    [("level", .int cur), ("ev", .list ev)] fuel hd
+  have hput : ∀ σ : State, retK σ [.loc "l2", .loc "l3"] "decodePutRequest"
+      (exec (X P) (fuel + 4) decodePutRequest_body
+        ⟨[("p0", .bytes (P.headerGet header ctKey)), ("p1", reqV method header body rest)],
+         [("lvl", a), ("isnil", b), ("level", .int cur), ("ev", .list ev)]⟩) = _ :=
+    fun σ => retK_of_fin2 σ _ _ _ _ _ _ _ hp
+  have hfin : ∀ (a' b' : Val), (exec (X P) (fuel + 5) serveHTTP_body
+        ⟨[("p0", w), ("p1", reqV method header body rest)], [("lvl", a), ("isnil", b), ("level", .int cur), ("ev", .list ev)]⟩).fin =
+      some ([.list (serveSpec P w method header body rest cur).2.2],
+        [("lvl", a'), ("isnil", b'), ("level", .int (serveSpec P w method header body rest cur).2.1),
+         ("ev", .list (ev ++ (serveSpec P w method header body rest cur).1))]) →
+      run (X P) (fuel + 5) "serveHTTP" [w, reqV method header body rest]
+        [("lvl", a), ("isnil", b), ("level", .int cur), ("ev", .list ev)] = .done _ _ :=
+    fun a' b' h => run_of_fin (X P) _ _ Gen.TransLevel.serveHTTP _ _ _ _ rfl rfl h
+  by_cases hg : method = [71, 69, 84]
+  · subst hg
+    refine ⟨a, b, hfin a b ?_⟩
+    rw [exec_succ]
+    simp [serveSpec, serveHTTP_body, reqV, encodeRec, encV, nm_encode]
+  · have hg' : (method == [71, 69, 84]) = false := by simpa using hg
+    by_cases hpm : method = [80, 85, 84]
+    · subst hpm
+      cases hd2 : (putSpec P (P.headerGet header ctKey) (reqV [80, 85, 84] header body rest) body).2 with
+      | nil =>
+        refine ⟨a', b', hfin a' b' ?_⟩
+        rw [exec_succ]
+        simp only [ctKey, reqV] at hput hd2
+        simp [serveSpec, serveHTTP_body, reqV, encodeRec, encV, nm_encode, ctKey, hput, hd2]
+      | cons x xs =>
+        have hlen : ¬ ((xs.length : Int) + 1 = 0) := by omega
+        refine ⟨a', b', hfin a' b' ?_⟩
+        rw [exec_succ]
+        simp only [ctKey, reqV] at hput hd2
+        simp [serveSpec, serveHTTP_body, reqV, encodeRec, encV, headerRec, nm_encode, nm_writeHeader, ctKey, hput, hd2, hlen]
+    · have hpm' : (method == [80, 85, 84]) = false := by simpa using hpm
+      refine ⟨a, b, hfin a b ?_⟩
+      rw [exec_succ]
+      simp [serveSpec, serveHTTP_body, reqV, encodeRec, encV, headerRec, nm_encode, nm_writeHeader, onlyGetPut, hg, hg', hpm, hpm']
+
+
+/-- the status net/http sends for a handler's calls: the code of a leading `WriteHeader`, 200 when the first thing
+    written is the body -/
+def statusOf : List Val → Nat
+  | .list [_, _, .int c] :: _ => c.toNat
+  | _ => 200
+
+/-- what links the parameters (net/http, encoding/json on this request) to the model's `Decoded`: the standard library
+    hands the translated functions exactly what the model's request describes -/
+def DecLink (P : Par) (header body r : Val) : Decoded → Prop
+  | .form t lo => P.headerGet header ctKey = formCT ∧ P.formValue r levelKey = t ∧ P.lower t = lo
+  | .json vals => P.headerGet header ctKey ≠ formCT ∧
+      (match jsonFold none vals with
+       | none => (P.jsonDecode body).2 ≠ []
+       | some none => P.jsonDecode body = ([], [])
+       | some (some l) => P.jsonDecode body = ([.int l], []))
+  | .malformed => P.headerGet header ctKey ≠ formCT ∧ (P.jsonDecode body).2 ≠ []
+
+theorem parse_lower_irrel (lower : Bytes → Bytes) (t lo : Bytes) (h : lower t = lo) : parse lower t = parse (fun _ => lo) t := by
+  simp [parse, h]
+
+/-- the translated `decodePutRequest` decides as the model's `decodePut` -/
+theorem putSpec_is_decodePut (P : Par) (header body r : Val) (dec : Decoded) (h : DecLink P header body r dec) :
+    (putSpec P (P.headerGet header ctKey) r body).2.isEmpty = (decodePut dec).isSome ∧
+    ∀ l, decodePut dec = some l → (putSpec P (P.headerGet header ctKey) r body).1 = l := by
+  cases dec with
+  | form t lo =>
+    obtain ⟨h1, h2, h3⟩ := h
+    simp only [putSpec, h1, if_true, putURLSpec, h2, decodePut, unmarshalInto, parse_lower_irrel P.lower t lo h3]
+    cases t with
+    | nil => simp [mustSpecify]
+    | cons c cs =>
+      cases hp : parse (fun _ => lo) (c :: cs) with
+      | none => simp [hp, unmarshalErrL]
+      | some l => simp [hp]
+  | json vals =>
+    obtain ⟨h1, h2⟩ := h
+    simp only [putSpec, h1, if_false, putJSONSpec, decodePut]
+    cases hf : jsonFold none vals with
+    | none =>
+      simp only [hf] at h2
+      simp [h2, malformedErr]
+    | some st =>
+      cases st with
+      | none => simp only [hf] at h2; simp [h2, mustSpecify]
+      | some l => simp only [hf] at h2; simp [h2]
+  | malformed =>
+    obtain ⟨h1, h2⟩ := h
+    simp [putSpec, h1, putJSONSpec, decodePut, h2, malformedErr]
+
+/-- the translated `serveHTTP` IS the model's `serve`: same status, same level afterwards, and a 200 answer carries the
+    level in force — for every request whose standard-library decoding the model's `Decoded` describes -/
+theorem serveHTTP_is_serve (P : Par) (w : Val) (mb : Bytes) (m : String) (header body rest : Val) (cur : Int) (dec : Decoded)
+    (hG : mb = [71, 69, 84] ↔ m = "GET") (hP : mb = [80, 85, 84] ↔ m = "PUT")
+    (h : DecLink P header body (reqV mb header body rest) dec) :
+    statusOf (serveSpec P w mb header body rest cur).1 = (serve cur ⟨m, dec⟩).1 ∧
+    (serveSpec P w mb header body rest cur).2.1 = (serve cur ⟨m, dec⟩).2.1 ∧
+    (∀ l, (serve cur ⟨m, dec⟩).2.2 = some l → (serveSpec P w mb header body rest cur).1 = [encodeRec w (.int l)]) := by
+  obtain ⟨hd1, hd2⟩ := putSpec_is_decodePut P header body (reqV mb header body rest) dec h
+  unfold serve serveSpec
+  by_cases hg : mb = [71, 69, 84]
+  · have hm : m = "GET" := hG.mp hg
+    simp [hg, hm, statusOf, encodeRec]
+  · have hm : ¬ m = "GET" := fun e => hg (hG.mpr e)
+    by_cases hp : mb = [80, 85, 84]
+    · have hm2 : m = "PUT" := hP.mp hp
+      subst hp
+      cases hdec : decodePut dec with
+      | none =>
+        have he : ¬ (putSpec P (P.headerGet header ctKey) (reqV [80, 85, 84] header body rest) body).2 = [] := by
+          have := hd1; rw [hdec] at this; simpa using this
+        simp [hm, hm2, hdec, he, statusOf, headerRec]
+      | some l =>
+        have he : (putSpec P (P.headerGet header ctKey) (reqV [80, 85, 84] header body rest) body).2 = [] := by
+          have := hd1; rw [hdec] at this; simpa using this
+        have hl := hd2 l hdec
+        simp [hm, hm2, hdec, he, hl, statusOf, encodeRec]
+    · have hm2 : ¬ m = "PUT" := fun e => hp (hP.mpr e)
+      simp [hg, hm, hp, hm2, statusOf, headerRec]
+
+
+/-- the status decision of the translated handler is the one `http_status` states -/
+theorem serveHTTP_status_is_model (P : Par) (w : Val) (mb : Bytes) (m : String) (header body rest : Val) (cur : Int) (dec : Decoded)
+    (hG : mb = [71, 69, 84] ↔ m = "GET") (hP : mb = [80, 85, 84] ↔ m = "PUT")
+    (h : DecLink P header body (reqV mb header body rest) dec) :
+    statusOf (serveSpec P w mb header body rest cur).1 = (if m = "GET" then 200 else if m = "PUT" then
+      (if (decodePut dec).isSome then 200 else 400) else 405) := by
+  rw [(serveHTTP_is_serve P w mb m header body rest cur dec hG hP h).1]
+  exact http_status cur ⟨m, dec⟩
+
+/-- the translated handler changes the level only on a PUT that names a level, to exactly that level, answering 200 -/
+theorem serveHTTP_changes_iff (P : Par) (w : Val) (mb : Bytes) (m : String) (header body rest : Val) (cur : Int) (dec : Decoded)
+    (hG : mb = [71, 69, 84] ↔ m = "GET") (hP : mb = [80, 85, 84] ↔ m = "PUT")
+    (h : DecLink P header body (reqV mb header body rest) dec) (hne : (serveSpec P w mb header body rest cur).2.1 ≠ cur) :
+    m = "PUT" ∧ ∃ l, decodePut dec = some l ∧ (serveSpec P w mb header body rest cur).2.1 = l ∧
+      statusOf (serveSpec P w mb header body rest cur).1 = 200 := by
+  obtain ⟨h1, h2, _⟩ := serveHTTP_is_serve P w mb m header body rest cur dec hG hP h
+  rw [h2] at hne
+  obtain ⟨hm, l, hl1, hl2, hl3⟩ := http_changes_iff cur ⟨m, dec⟩ hne
+  exact ⟨hm, l, hl1, by rw [h2]; exact hl2, by rw [h1]; exact hl3⟩
+
+/-- a rejected text leaves the target of the translated `UnmarshalText` unmodified (`reject_unchanged` about the source) -/
+theorem UnmarshalText_reject_unchanged (P : Par) (t : Bytes) (cur : Int) (fl0 : Env) (fuel : Nat) (h : parse P.lower t = none) :
+    run (X P) (fuel + 2) "UnmarshalText" [.bytes t] (("lvl", .int cur) :: ("isnil", .bool false) :: fl0) =
+      .done [unmarshalErr t] (("lvl", .int cur) :: ("isnil", .bool false) :: fl0) := by
+  rw [UnmarshalText_matches_source, reject_unchanged P.lower cur t h]
+  simp
+
+/-- `Level.Enabled`: at or above -/
+theorem Enabled_matches_source (P : Par) (l lvl : Int) (fl0 : Env) (fuel : Nat) :
+    run (X P) (fuel + 1) "LevelEnabled" [.int lvl] (("lvl", .int l) :: fl0) = .done [.bool (decide (lvl ≥ l))] (("lvl", .int l) :: fl0) := by
+  apply run_of_fin (X P) _ _ Gen.TransLevel.LevelEnabled _ _ _ _ rfl rfl
+  rw [exec_succ]; simp [LevelEnabled_body]
+
+/-- `MarshalText`: the bytes of `String()`, never an error -/
+theorem MarshalText_matches_source (P : Par) (l : Int) (fl0 : Env) (fuel : Nat) :
+    run (X P) (fuel + 2) "LevelMarshalText" [] (("lvl", .int l) :: fl0) = .done [.bytes (stringSpec P l), .list []] (("lvl", .int l) :: fl0) := by
+  have hs := String_matches_source P l fl0 fuel
+  have hfin : (exec (X P) (fuel + 1) LevelString_body ⟨[], ("lvl", .int l) :: fl0⟩).fin = some ([.bytes (stringSpec P l)], ("lvl", .int l) :: fl0) := by
+    simp only [run, X_funs, funs_LevelString, LevelString_params_eq, LevelString_named_eq, LevelString_body_eq] at hs
+    cases h : exec (X P) (fuel + 1) LevelString_body ⟨[], ("lvl", .int l) :: fl0⟩ <;> simp_all [Out.fin]
+  have hcall : ∀ σ : State, retK σ [.loc "l0"] "LevelString" (exec (X P) (fuel + 1) LevelString_body ⟨[], ("lvl", .int l) :: fl0⟩) = _ :=
+    fun σ => retK_of_fin1 σ _ _ _ _ _ hfin
+  apply run_of_fin (X P) _ _ Gen.TransLevel.LevelMarshalText _ _ _ _ rfl rfl
+  rw [exec_succ]; simp [LevelMarshalText_body, hcall]
+
+/-- `(*Level).Set` (flag.Value): `UnmarshalText` of the string's bytes -/
+theorem Set_matches_source (P : Par) (t : Bytes) (cur : Int) (fl0 : Env) (fuel : Nat) :
+    run (X P) (fuel + 3) "LevelSet" [.bytes t] (("lvl", .int cur) :: ("isnil", .bool false) :: fl0) =
+      .done [if (unmarshalInto P.lower cur t).1 then .list [] else unmarshalErr t]
+        (("lvl", .int (unmarshalInto P.lower cur t).2) :: ("isnil", .bool false) :: fl0) := by
+  have hcall : ∀ σ : State, retK σ [.loc "l0"] "UnmarshalText"
+      (exec (X P) (fuel + 2) UnmarshalText_body ⟨[("p0", .bytes t)], ("lvl", .int cur) :: ("isnil", .bool false) :: fl0⟩) = _ :=
+    fun σ => retK_of_fin1 σ _ _ _ _ _ (UnmarshalText_exec_matches_source P t cur fl0 fuel)
+  apply run_of_fin (X P) _ _ Gen.TransLevel.LevelSet _ _ _ _ rfl rfl
+  rw [exec_succ]; simp [LevelSet_body, hcall]
 
 end ZapVerif.C20
